@@ -69,10 +69,10 @@ def c15_runs(tier):
         return [
             ("two-cands", c15_cfg(ALL_PKGS, ALL_SITES, ALL_KINDS, ["a", "b"], True, 2), None, None, 1.0),
             # earlier sibling message / service zq with declarations inside it (scope leakage)
-            ("siblings", c15_cfg(ALL_PKGS, nofile, ALL_KINDS, ["a", "b"], False, 2, sib=("TRUE",)), None, None, 0.5),
+            ("siblings", c15_cfg(ALL_PKGS, nofile, ALL_KINDS, ["a", "b"], False, 2, sib=("TRUE",)), None, None, 0.35),
             ("second-file", c15_cfg(ALL_PKGS, ["type", "extendee", "input", "msgopt", "fileopt"], f2kinds,
                                     ["a", "b"], False, 1, ["none", "a", "ab", "b"],
-                                    ["msg:a", "msg:b", "msgab", "ext:a", "val:b"], ALL_RELS), None, None, 0.5),
+                                    ["msg:a", "msg:b", "msgab", "ext:a", "val:b"], ALL_RELS), None, None, 0.4),
             ("sim-deep", c15_cfg(ALL_PKGS, ALL_SITES, ALL_KINDS, ["a", "b"], True, 4, ALL_F2PKGS, ALL_F2DECLS, ALL_RELS, sib=BOTH),
              30, 6, 1.0),
         ]
